@@ -13,6 +13,8 @@ def run(rep):
     m1(rep, w)
     m2(rep, w)
     m3(rep, w)
+    m4(rep, w)
+    c08.x9(rep, w)     # the active module is re-read from the frame whenever the frame list changes (unwinding out of another module)
     c08.x7(rep, w)     # an ImportError that was delivered to a handler must not be followed by further pushes in the import handler
 
 
@@ -108,6 +110,36 @@ def m1(rep, w):
                 k = op_const(rr['ops'][rr['fn'].index('imported')])
                 init = k.get('v') if k else None
     r.check(init == 0, 'a new module starts with imported = false', 'ObjModule::new initialises imported to %s' % init, nm.loc())
+
+
+def m4(rep, w):
+    """a module is entered into the registry only once its source was found and compiled: a failed load or compile defines nothing,
+    so it must not leave a half-registered module behind (the registry hit edge would report it as a circular import for ever)"""
+    r = rep.rule('M4', 'a module is registered only after its source was loaded and compiled successfully', floor=2)
+    f = w.require_fn(VM + 'start_import_impl', 'C14')
+    dom = f.dominators()
+    reg = [bi for bi, tt in f.calls() if callee_name(tt) == VM + 'module']
+    if not reg:
+        raise Broken('C14', 'anchor', 'start_import_impl: registration call not found')
+    for what, pred in (('the loader', lambda tt: 'ind' in tt['f']), ('compile', lambda tt: callee_name(tt) == 'yarel::compiler::compile')):
+        calls = [bi for bi, tt in f.calls() if pred(tt)]
+        ok = bool(calls)
+        for cb in calls:
+            # the Ok edge of the match on the call's result
+            b = f.blocks[cb]['t'].get('to')
+            okb = None
+            for _ in range(8):
+                if b is None:
+                    break
+                t = f.blocks[b]['t']
+                if t['t'] == 'switch':
+                    zero = [x for v, x in t['cases'] if v == 0]
+                    okb = zero[0] if zero else None
+                    break
+                b = t.get('to')
+            ok = ok and okb is not None and all(okb in dom.get(rg, ()) for rg in reg)
+        r.check(ok, 'registration is dominated by the Ok arm of %s' % what, 'the module is registered before %s has succeeded: when it fails the registry keeps an entry that '
+                'was never loaded, and every later import of that path reports a circular dependency' % what, f.loc())
 
 
 def m2(rep, w):
